@@ -1,11 +1,11 @@
 package main
 
 import (
-	"strings"
 	"go/constant"
 	"go/token"
 	"go/types"
 	"math/big"
+	"strings"
 
 	"golang.org/x/tools/go/ssa"
 )
